@@ -900,6 +900,17 @@ func ModifyRegister(register *object.Register, in ast.Node) (ast.Node, bool) {
 			// not handled currently (x--)
 			return nil, false
 		}
+	case *ast.InfixExpression:
+		// x = ... / x := ... on the variable itself: a register can only hold integers, while the variable can be
+		// assigned any value (func f(n){n = "s"; n} works without registers): keep a plain variable.
+		if t := in.Type(); (t == token.ASSIGN || t == token.DEFINE) && in.Left == ast.Node(register) {
+			return nil, false
+		}
+	case *ast.PrefixExpression:
+		// ++x / --x on the variable itself: evalPrefixIncrDecr needs an identifier.
+		if t := in.Type(); (t == token.INCR || t == token.DECR) && in.Right == ast.Node(register) {
+			return nil, false
+		}
 	case *ast.FunctionLiteral:
 		// skip lambda/functions in functions.
 		return nil, false
